@@ -11,8 +11,8 @@ every info set (any number of identities, features, fields, values; any well-for
 Vocabulary: `l ~ l'` permutation; `FormPermuted f f'` fields reordered and the values inside each field reordered;
 `DistinctKeys` the `var`s of the form are pairwise different (XEP-0004 §3.2); `NoChar c i` character `c` occurs in no
 component; `NoSlash i` no `/` in a category, type or language tag; `canon i` the content as the hash sees it (sorted
-identities, sorted distinct features, FORM_TYPE value and per key the appended values); `Plain` a non-empty string or
-non-empty list value; `XepForm` unique `var`s and a single-valued FORM_TYPE.
+identities, sorted distinct features, FORM_TYPE value and per key the appended values); `XepForm` unique `var`s and a
+single-valued string FORM_TYPE.
 
 Scope: the property is about the hash this client GENERATES and advertises versus what it ANSWERS.  The verification
 direction (checking the `ver` other entities advertise against their disco#info, XEP-0115 §5.4) is not part of it: qxmpp
@@ -20,9 +20,10 @@ has no such code path (`verificationString()` is only called from `addProperCapa
 to the wire view of our own objects.  XEP-0390 (Entity Capabilities 2.0) is not emitted by the library (no `urn:xmpp:caps`
 anywhere in src/), so there is nothing to relate.
 
-State of the tree: repo commits 0beac74 (sorting by UTF-8 octets) and eee8133 (`capabilities()` removes repeated
-features) are in; the model follows them, and the former `C20_defect_utf16_order` / `C20_defect_reply_repeats_feature`
-are gone (their witnesses stay in the harness corpus and as examples below).
+State of the tree: repo commits 0beac74 (sorting by UTF-8 octets), eee8133 (`capabilities()` removes repeated features),
+03b8892 (form field values hashed exactly as written) and 032336b (caps recomputed wherever the stored presence is
+emitted or handed out) are in; the model follows them and no defect theorem is left.  The former witnesses stay in the
+harness corpus and as examples below.
 -/
 namespace Qx.C20
 open List
@@ -161,24 +162,23 @@ theorem xep_string_ambiguous_across_sections :
 
 /-! ## the computed string is the XEP-0115 §5.1 string -/
 
-/-- **The C++ string is the XEP string** for every info set whose form is in the XEP's domain and whose field values
-are non-empty strings or non-empty lists — any characters, any number of identities, features, fields, values.
-(The two excluded value kinds are the recorded defects below.) -/
-theorem code_eq_spec (i : Info) (hx : XepForm i.form) (hp : PlainForm i.form) :
-    verStringCode i = verStringSpec i := by
+/-- **The C++ string is the XEP string** for every info set whose form is in the XEP's domain (unique `var`s, a string
+FORM_TYPE with one value) — any characters, any number of identities, features, fields, values, any field kinds
+(strings, lists, booleans, value-less fields). -/
+theorem code_eq_spec (i : Info) (hx : XepForm i.form) : verStringCode i = verStringSpec i := by
   simp only [verStringCode, verStringSpec, sortedIdentitiesCode, sortedFeaturesCode]
-  rw [formStr_agree hx hp]
+  rw [formStr_agree hx]
 
 /-- without a form nothing is assumed at all -/
 theorem code_eq_spec_without_form (i : Info) (h : i.form = none) : verStringCode i = verStringSpec i :=
-  code_eq_spec i (by rw [h]; trivial) (by rw [h]; trivial)
+  code_eq_spec i (by rw [h]; trivial)
 
 /-- **The collation used is the XEP's, and it is code point order**: i;octet on the UTF-8 encodings compares the
 sequences of code points (so e.g. U+FF5E sorts before U+1F600, unlike in UTF-16). -/
 theorem octet_order_is_code_point_order (s t : Str) : lt8 s t = lexLt (cps s) (cps t) :=
   lt8_eq_cp s t
 
-/-! ### where today's code is *not* the XEP string (each replayed on the real library by `harness/cxx/caps.cpp`) -/
+/-! ### former witnesses of deviations from the XEP string (all fixed; each replayed on the real library by `harness/cxx/caps.cpp`) -/
 
 example : ('😀').toNat = 0x1F600 ∧ ('～').toNat = 0xFF5E := by decide
 
@@ -198,42 +198,12 @@ and the string is the XEP string -/
 example : sortedIdentitiesCode witnessUtf16 = [idTilde, idSmile] ∧
     verStringCode witnessUtf16 = verStringSpec witnessUtf16 ∧ lt16 ['😀'] ['～'] = true ∧ lt8 ['～'] ['😀'] = true := by decide
 
-theorem witnessBool_xepForm : XepForm witnessBool.form := by
-  refine ⟨by decide, ?_⟩
-  intro f hf hk
-  simp only [mem_cons, not_mem_nil, or_false] at hf
-  rcases hf with rfl | rfl
-  · exact ⟨_, rfl⟩
-  · exact absurd hk (by decide)
-
-theorem witnessValueless_xepForm : XepForm witnessValueless.form := by
-  refine ⟨by decide, ?_⟩
-  intro f hf hk
-  simp only [mem_cons, not_mem_nil, or_false] at hf
-  rcases hf with rfl | rfl
-  · exact ⟨_, rfl⟩
-  · exact absurd hk (by decide)
-
-/-- **Defect (boolean fields).** A boolean field is hashed as `true`/`false` (`QVariant::toString`) but written to
-the wire as `1`/`0`: on the XEP's domain the computed string is not always the XEP string of what is sent, i.e.
-`code_eq_spec` is false without `PlainForm` (key `C20:boolean-field-hashed-as-true-false`). -/
-theorem C20_defect_boolean_field :
-    ¬ ∀ i : Info, XepForm i.form → verStringCode i = verStringSpec i := by
-  intro h
-  have x1 := h witnessBool witnessBool_xepForm
-  revert x1
-  decide
-
-/-- **Defect (value-less fields).** A field without a value is hashed as `var<<` where the XEP says `var<`
-(key `C20:valueless-field-extra-separator`); consequently adding an empty value to it does not change the hash. -/
-theorem C20_defect_valueless_field :
-    (¬ ∀ i : Info, XepForm i.form → verStringCode i = verStringSpec i) ∧
-    verStringCode { witnessValueless with form := some [⟨formTypeKey, .text "urn:t".toList⟩, ⟨['b'], .list []⟩] } =
+/-- the former boolean-field and value-less-field witnesses (fixed by 03b8892): the strings are the XEP strings
+`urn:t<b<1<` and `urn:t<b<`, and an empty value added to a value-less list field now changes the string -/
+example : verStringCode witnessBool = "urn:t<b<1<".toList ∧ verStringSpec witnessBool = "urn:t<b<1<".toList ∧
+    verStringCode witnessValueless = "urn:t<b<".toList ∧ verStringSpec witnessValueless = "urn:t<b<".toList ∧
+    verStringCode { witnessValueless with form := some [⟨formTypeKey, .text "urn:t".toList⟩, ⟨['b'], .list []⟩] } ≠
     verStringCode { witnessValueless with form := some [⟨formTypeKey, .text "urn:t".toList⟩, ⟨['b'], .list [[]]⟩] } := by
-  refine ⟨?_, by decide⟩
-  intro h
-  have x1 := h witnessValueless witnessValueless_xepForm
-  revert x1
   decide
 
 /-! ## advertised = answered -/
@@ -246,27 +216,14 @@ theorem advertised_eq_answered {β : Type} (H : Str → β) (c : ClientCfg) (v :
   simp [answeredInfo, advertisedVer, isPrefixOf_self_append]
 
 /-- **…and it is the XEP-0115 hash of that answer** (what a verifying peer recomputes) whenever the client's info form
-is in the XEP's domain with plain values (always when no info form is set). -/
+is in the XEP's domain (always when no info form is set). -/
 theorem advertised_eq_xep_hash_of_answer {β : Type} (H : Str → β) (c : ClientCfg) (v : Str)
-    (hx : XepForm c.infoForm) (hp : PlainForm c.infoForm) :
+    (hx : XepForm c.infoForm) :
     (answeredInfo c (c.node ++ '#' :: v)).map (fun i => H (verStringSpec i)) = some (advertisedVer H c) := by
-  have e := code_eq_spec (capabilities c) hx hp
+  have e := code_eq_spec (capabilities c) hx
   simp [answeredInfo, advertisedVer, isPrefixOf_self_append, ver, e]
 
-/-! ### the stored presence over a history (which emission sites recompute the caps, which send the stored copy) -/
-
-/-- the stored caps are those of the current configuration -/
-def Fresh {β : Type} (H : Str → β) (s : ClientSt β) : Prop := s.stored = freshCaps H s.cfg
-
-/-- a history in which no presence is emitted from the stored copy after a reconfiguration that was not followed by
-`setClientPresence` / `connectToServer` (`f` = the stored caps are known to be fresh at the start) -/
-def Disciplined : Bool → List ClientOp → Prop
-  | _, [] => True
-  | _, .configure _ :: r => Disciplined false r
-  | _, .setClientPresence _ :: r => Disciplined true r
-  | _, .connectToServer _ :: r => Disciplined true r
-  | f, .emitStored _ :: r => f = true ∧ Disciplined f r
-  | f, .query _ :: r => Disciplined f r
+/-! ### every emission site over any history -/
 
 /-- **What fresh caps mean**: node = the configured node, `ver` = hash of `capabilities()`, and a disco#info `get` for
 `node#ver…`, for the plain node and without node is answered with an info set of exactly that `ver`. -/
@@ -285,75 +242,54 @@ theorem fresh_caps_are_answered {β : Type} (H : Str → β) (c : ClientCfg) (n 
     simp only [append_nil] at h1
     simp [answeredInfo, isPrefixOf_self_append, h1, advertisedVer]
 
-/-- **`setClientPresence` always advertises the current hash** — with a fresh presence or one derived from
-`clientPresence()` (which already carries older caps), after any history. -/
-theorem setClientPresence_emits_fresh_caps {β : Type} (H : Str → β) (s : ClientSt β) (derived : Bool) :
-    (clientStep H s (.setClientPresence derived)).2 = [.presence (freshCaps H s.cfg)] ∧
-    Fresh H (clientStep H s (.setClientPresence derived)).1 ∧ Fresh H (clientStep H s (.connectToServer derived)).1 := by
-  simp [clientStep, Fresh]
-
-/-- **Over any disciplined history, every emitted presence advertises the hash of what is answered at that moment**
-(then `fresh_caps_are_answered` applies): every presence emitted by `setClientPresence`, at session start (also on
-automatic reconnection), by `disconnectFromServer` or by a MUC join carries the caps of the configuration then in force,
-provided no reconfiguration happened since the last `setClientPresence` / `connectToServer`. -/
-theorem every_emitted_caps_are_fresh_in_disciplined_histories {β : Type} (H : Str → β) (s : ClientSt β) (f : Bool)
-    (ops : List ClientOp) (hf : f = true → Fresh H s) (hd : Disciplined f ops)
+/-- **Every emitted presence, at every site and in every history, advertises the caps of that moment**: whatever
+sequence of reconfigurations (`addExtension`, `removeExtension`, `setClientName/Type/Category/InfoForm/CapabilitiesNode`),
+`setClientPresence` (fresh presence or one derived from `clientPresence()`), `connectToServer`, session starts (also
+after automatic reconnection), MUC joins, `disconnectFromServer` and queries — each presence carries exactly
+`freshCaps` of the configuration in force when it is emitted (no caps element iff the node is empty). -/
+theorem every_emitted_presence_has_fresh_caps {β : Type} (H : Str → β) (s : ClientSt β) (ops : List ClientOp)
     (s' : ClientSt β) (p : Option (Str × β)) (hm : (s', ClientOut.presence p) ∈ (clientRun H s ops).2) :
     p = freshCaps H s'.cfg := by
-  induction ops generalizing s f with
+  induction ops generalizing s with
   | nil => simp [clientRun] at hm
   | cons op ops ih =>
     simp only [clientRun, mem_append, mem_map] at hm
-    cases op with
-    | configure c =>
-      rcases hm with ⟨o, ho, _⟩ | hm
-      · simp [clientStep] at ho
-      · exact ih _ false (by simp) hd hm
-    | query n =>
-      rcases hm with ⟨o, ho, he⟩ | hm
-      · simp only [clientStep, mem_singleton] at ho; subst ho; simp at he
-      · exact ih _ f hf hd hm
-    | setClientPresence d =>
-      rcases hm with ⟨o, ho, he⟩ | hm
-      · simp only [clientStep, mem_singleton] at ho
+    rcases hm with ⟨o, ho, he⟩ | hm
+    · cases op with
+      | configure c => simp [clientStep] at ho
+      | connectToServer d => simp [clientStep] at ho
+      | query n => simp only [clientStep, mem_singleton] at ho; subst ho; simp at he
+      | setClientPresence d =>
+        simp only [clientStep, mem_singleton] at ho
         subst ho
         simp only [Prod.mk.injEq, ClientOut.presence.injEq] at he
         obtain ⟨rfl, rfl⟩ := he
         rfl
-      · exact ih _ true (fun _ => by simp [clientStep, Fresh]) hd hm
-    | connectToServer d =>
-      rcases hm with ⟨o, ho, _⟩ | hm
-      · simp [clientStep] at ho
-      · exact ih _ true (fun _ => by simp [clientStep, Fresh]) hd hm
-    | emitStored site =>
-      rcases hm with ⟨o, ho, he⟩ | hm
-      · simp only [clientStep, mem_singleton] at ho
+      | emitStored site =>
+        simp only [clientStep, mem_singleton] at ho
         subst ho
         simp only [Prod.mk.injEq, ClientOut.presence.injEq] at he
         obtain ⟨rfl, rfl⟩ := he
-        exact hf hd.1
-      · exact ih _ f hf hd.2 hm
+        rfl
+    · exact ih _ hm
 
-/-- two configurations with different hashes (for the witness below; `H` = identity, i.e. no collision involved) -/
+/-- **…hence it advertises the hash of the disco#info answer of that moment**: for every presence with a caps element
+emitted anywhere in any history, its node is the configured node, its `ver` is the hash of `capabilities()` then, and a
+`get` for `node#ver…`, for the plain node or without node is answered — under the configuration in force at the emission —
+with an info set of exactly that `ver`. -/
+theorem every_emitted_presence_advertises_the_answer_of_that_moment {β : Type} (H : Str → β) (s : ClientSt β)
+    (ops : List ClientOp) (s' : ClientSt β) (n : Str) (v : β)
+    (hm : (s', ClientOut.presence (some (n, v))) ∈ (clientRun H s ops).2) :
+    n = s'.cfg.node ∧ v = advertisedVer H s'.cfg ∧ ∀ x : Str,
+      (answeredInfo s'.cfg (n ++ '#' :: x)).map (ver H) = some v ∧ (answeredInfo s'.cfg n).map (ver H) = some v ∧
+      (answeredInfo s'.cfg []).map (ver H) = some v :=
+  fresh_caps_are_answered H s'.cfg n v (every_emitted_presence_has_fresh_caps H s ops s' _ hm).symm
+
+/-- two configurations with different hashes (for the examples below; `H` = identity) -/
 def cfgOld : ClientCfg :=
   { category := "client".toList, type := "pc".toList, name := ['a'], baseFeatures := [['f']], extFeatures := [],
     extIdentities := [], infoForm := none, node := ['n'] }
 def cfgNew : ClientCfg := { cfgOld with extFeatures := [[['g']]] }
-
-/-- **Defect (stale caps at the sites that send the stored presence).** The unrestricted statement — every emitted
-presence carries the caps of the configuration in force — is false: after `connectToServer`, an `addExtension` (or any
-other reconfiguration), the initial presence sent at session start (or by a later automatic reconnection, a MUC join,
-`disconnectFromServer`) still carries the hash computed at `connectToServer` time
-(keys `C20:stale-ver:session-start`, `C20:stale-ver:muc-join`, `C20:stale-ver:disconnect`). -/
-theorem C20_defect_stale_caps_on_stored_emission :
-    ¬ ∀ (ops : List ClientOp) (s' : ClientSt Str) (p : Option (Str × Str)),
-        (s', ClientOut.presence p) ∈ (clientRun (fun x => x) { cfg := cfgOld } ops).2 → p = freshCaps (fun x => x) s'.cfg := by
-  intro h
-  have x1 := h [.connectToServer false, .configure cfgNew, .emitStored .sessionStart]
-    { cfg := cfgNew, stored := freshCaps (fun x => x) cfgOld } (freshCaps (fun x => x) cfgOld)
-    (by simp [clientRun, clientStep])
-  revert x1
-  decide
 
 /-- **The advertised node is always answered**: `node#anything`, the plain node and the empty node are never
 item-not-found, whatever characters the configured node contains. -/
@@ -405,12 +341,12 @@ example : FormPermuted infoA.form infoB.form :=
   ⟨[formA[2], formA[1], formA[0]], by decide,
    .cons ⟨rfl, rfl⟩ (.cons ⟨rfl, Perm.swap _ _ _⟩ (.cons ⟨rfl, rfl⟩ .nil))⟩
 example : verStringCode infoA = verStringCode infoB := by decide +kernel
-example : NoChar '<' infoA ∧ NoSlash infoA ∧ XepForm infoA.form ∧ PlainForm infoA.form := by
-  refine ⟨by decide, by decide, ⟨by decide, ?_⟩, by decide⟩
+example : NoChar '<' infoA ∧ NoSlash infoA ∧ XepForm infoA.form := by
+  refine ⟨by decide, by decide, ⟨by decide, ?_⟩⟩
   intro f hf hk
   simp only [formA, mem_cons, not_mem_nil, or_false] at hf
   rcases hf with rfl | rfl | rfl
-  · exact ⟨_, rfl⟩
+  · exact ⟨⟨_, rfl⟩, fun b h => by cases h⟩
   · exact absurd hk (by decide)
   · exact absurd hk (by decide)
 /-- altering one value keeps the shape and changes the canonical content (hypotheses of `ver_changes_when_altered`) -/
@@ -428,16 +364,13 @@ def cfgA : ClientCfg :=
     extFeatures := [["http://jabber.org/protocol/disco#info".toList], ["jabber:iq:version".toList]],
     extIdentities := [[], [⟨"automation".toList, "rpc".toList, [], []⟩]],
     infoForm := some formA, node := "https://example.org/client".toList }
-example : PlainForm cfgA.infoForm ∧ DistinctKeys cfgA.infoForm := ⟨by decide, by decide⟩
-/-- a disciplined history with two different hashes (so the statement is not about a constant), and the same history made
-undisciplined by leaving out the second `setClientPresence` -/
-example : Disciplined false [.connectToServer false, .emitStored .sessionStart, .configure cfgNew, .setClientPresence true,
-    .emitStored .mucJoin, .query ['n'], .emitStored .disconnect] ∧
-    ¬ Disciplined false [.connectToServer false, .emitStored .sessionStart, .configure cfgNew, .emitStored .mucJoin] := by
-  simp [Disciplined]
+example : DistinctKeys cfgA.infoForm := by decide
+/-- the former stale-caps witness (fixed by 032336b): after `connectToServer` and a reconfiguration the session start —
+and a MUC join, a disconnect — advertise the NEW caps; the two hashes really differ -/
 example : ((clientRun (fun s => s) { cfg := cfgOld } [.connectToServer false, .emitStored .sessionStart, .configure cfgNew,
-    .setClientPresence true, .emitStored .mucJoin]).2.map (·.2)) =
-    [.presence (freshCaps (fun s => s) cfgOld), .presence (freshCaps (fun s => s) cfgNew), .presence (freshCaps (fun s => s) cfgNew)] ∧
+    .emitStored .sessionStart, .emitStored .mucJoin, .emitStored .disconnect]).2.map (·.2)) =
+    [.presence (freshCaps (fun s => s) cfgOld), .presence (freshCaps (fun s => s) cfgNew), .presence (freshCaps (fun s => s) cfgNew),
+     .presence (freshCaps (fun s => s) cfgNew)] ∧
     freshCaps (fun s => s) cfgOld ≠ freshCaps (fun s => s) cfgNew := by decide
 /-- a capabilities node that itself contains `#` (XEP-0115 allows any URI): `node#ver` and the plain node are answered -/
 example : (answeredInfo { cfgA with node := "http://example.org/products#demo".toList } "http://example.org/products#demo#q07IKJEyjvHSyhy//CH0CxmKi8w=".toList).isSome = true ∧
